@@ -661,3 +661,29 @@ Example C05_ex_R4_at_end :
   rw_positions (sem e 4 (NConcat 0 [NCharLoop COne LGreedy 0 97 0 INF; bs]) rw_s0) = [3; 2; 1; 0] /\
   rw_positions (sem e 4 (NConcat 0 [NCharLoop COne LAtomic 0 97 0 INF; bs]) rw_s0) = [3; 2].
 Proof. vm_compute. split; reflexivity. Qed.
+
+(* R4, direction matters (tree.go canBeMadeAtomic refuses right-to-left loops since cad7f1b): a right-to-left
+   a* followed by \z, from position 1 of "a": giving the character back is what lets \z hold *)
+Example C05_ex_R4_rtl_negative :
+  let e := rw_ex_env [97] in let s1 := {| pos := 1; caps := [] |} in
+  rw_positions (sem e 4 (NConcat 64 [NCharLoop COne LGreedy 64 97 0 INF; NAnchor AEnd]) s1) = [1] /\
+  rw_positions (sem e 4 (NConcat 64 [NCharLoop COne LAtomic 64 97 0 INF; NAnchor AEnd]) s1) = [].
+Proof. vm_compute. split; reflexivity. Qed.
+
+(* R4, a nullable successor may be stepped over only when it is DISJOINT (cont_fails_skip_charloop0; the code
+   had the test inverted until af08c9d): [ab]+(?=[ab]*c)[ab]c on "abc" *)
+Example C05_ex_R4_overlap_negative :
+  let e := rw_ex_env [97; 98; 99] in
+  let t l := NConcat 0 [NCharLoop CSet l 0 0 1 INF;
+                        NPosLook 0 (NConcat 0 [NCharLoop CSet LGreedy 0 0 0 INF; NChar COne 0 99]);
+                        NChar CSet 0 0; NChar COne 0 99] in
+  rw_positions (sem e 6 (t LGreedy) rw_s0) = [3] /\ rw_positions (sem e 6 (t LAtomic) rw_s0) = [].
+Proof. vm_compute. split; reflexivity. Qed.
+
+(* not one of the gated rewrites, recorded here because it was found with them (fixed in /repo 571b434): an
+   ATOMIC child loop cannot be multiplied into the enclosing loop: (?>a+)?ab is not (?>a* )ab on "ab" *)
+Example C05_ex_multiply_atomic_negative :
+  let e := rw_ex_env [97; 98] in
+  rw_positions (sem e 6 (NConcat 0 [NLoop false 0 0 1 (NCharLoop COne LAtomic 0 97 1 INF); NMulti 0 [97; 98]]) rw_s0) = [2] /\
+  rw_positions (sem e 6 (NConcat 0 [NCharLoop COne LAtomic 0 97 0 INF; NMulti 0 [97; 98]]) rw_s0) = [].
+Proof. vm_compute. split; reflexivity. Qed.
